@@ -635,9 +635,34 @@ def rule_D4_ids(ctx, typer, clsname):
                     if isinstance(a, ast.Assign) and any(t is node for t in a.targets):
                         st = a
                 n += 1
-                if st is not None and isinstance(st.value, ast.Call) and norm(st.value.func) == "next" and st.value.args \
-                        and isinstance(st.value.args[0], ast.Attribute):
-                    ctr_attr = st.value.args[0].attr
+                from .common import resolve_local as _rl
+
+                def _is_next(e_):
+                    e_ = _rl(f, e_)
+                    if isinstance(e_, ast.Name) and st is not None:
+                        # the binding that reaches the store (`num = next(counter)` in the miss branch)
+                        from .common import reaching_def_nodes
+                        cfg_ = typer.cfg_of(f)
+                        at_ = [cn_ for cn_ in cfg_.nodes if cn_.kind == "stmt" and cn_.ast is st]
+                        ds_ = reaching_def_nodes(at_[0], e_.id) if at_ else None
+                        if ds_ and len(ds_) == 1:
+                            e_ = ds_[0].ast.value
+                    return e_ if isinstance(e_, ast.Call) and norm(e_.func) == "next" and e_.args and isinstance(e_.args[0], ast.Attribute) else None
+                val_ = _rl(f, st.value) if st is not None else None
+                if st is not None and isinstance(val_, ast.Tuple) and sum(1 for e_ in val_.elts if _is_next(e_) is not None) == 1:
+                    # the memo keeps the number together with other data: (num, node); every read takes that component
+                    idx_ = next(i_ for i_, e_ in enumerate(val_.elts) if _is_next(e_) is not None)
+                    ctr_attr = _is_next(val_.elts[idx_]).args[0].attr
+                    loads_ = [x for x in walk_own(f.node) if isinstance(x, ast.Subscript) and isinstance(x.ctx, ast.Load)
+                              and isinstance(x.value, ast.Attribute) and x.value.attr == ids_attr]
+                    picked = [x for x in walk_own(f.node) if isinstance(x, ast.Subscript) and any(x.value is l_ for l_ in loads_)
+                              and isinstance(x.slice, ast.Constant) and x.slice.value == idx_]
+                    if len(picked) == len(loads_):
+                        ctx.inst("D4", f, st, "new nodes get the next counter value (kept as component %d of the memo entry)" % idx_)
+                    else:
+                        ctx.viol("D4", f, st, "the memo entry is a tuple with the number at position %d, but a lookup does not take that component" % idx_)
+                elif st is not None and _is_next(st.value) is not None:
+                    ctr_attr = _is_next(st.value).args[0].attr
                     ctx.inst("D4", f, st, "new nodes get the next counter value")
                 else:
                     ctx.viol("D4", f, st or node, "a node seen for the first time does not get next(<counter>)")
@@ -838,7 +863,38 @@ def rule_D5_legacy(ctx):
                     and len(kws) == 1 and norm(kws[0].value) == a.kwarg.arg and len(c.keywords) == 1:
                 fwd = True
     n += 1
-    if fwd and len(a.args) == 1:
+    # spelled-out form: the very parameter list of DotExporter.__init__ (names, order, defaults), each handed on under its own name
+    explicit = None
+    if not a.vararg and not a.kwarg and not a.kwonlyargs:
+        base = ctx.p.func("DotExporter", "__init__")
+        ba = base.node.args
+
+        def sig(x):
+            names = [q.arg for q in x.posonlyargs + x.args][1:]
+            dfl = [norm(d) for d in x.defaults]
+            return names, dfl
+        same_sig = sig(a) == sig(ba) and not ba.vararg and not ba.kwarg and not ba.kwonlyargs
+        names = sig(a)[0]
+        ok_fwd = False
+        for c in walk_own(init.node):
+            if isinstance(c, ast.Call) and isinstance(c.func, ast.Attribute) and c.func.attr == "__init__" and "super" in norm(c.func.value):
+                got = {}
+                ok_fwd = not any(isinstance(x, ast.Starred) for x in c.args) and all(k.arg is not None for k in c.keywords)
+                for i, x in enumerate(c.args):
+                    if i < len(names):
+                        got[names[i]] = norm(x)
+                for k in c.keywords:
+                    got[k.arg] = norm(k.value)
+                ok_fwd = ok_fwd and got == {q: q for q in names}
+        explicit = same_sig and ok_fwd
+        if not same_sig and ok_fwd:
+            ctx.viol("D5", init, init.node, "RenderTreeGraph.__init__ spells out its parameters as %s, DotExporter.__init__ has %s: positional "
+                     "arguments of the legacy class land in other options than with DotExporter" % (sig(a)[0], sig(ba)[0]),
+                     construct="RenderTreeGraph.__init__ parameter list differs from DotExporter's")
+            return n
+    if explicit:
+        ctx.inst("D5", init, init.node, "same parameter list as DotExporter.__init__, each handed on under its own name")
+    elif fwd and len(a.args) == 1:
         ctx.inst("D5", init, init.node, "forwards *args, **kwargs unchanged to DotExporter.__init__")
     else:
         ctx.viol("D5", init, init.node, "RenderTreeGraph.__init__ does not forward all its arguments unchanged to DotExporter",
